@@ -78,7 +78,7 @@ def profile(prop):
                  measures=SET_JOINS + ['EDIT_DISTANCE'], hist=(1, 2),
                  rows=(0, 14), big=0.15,
                  variants={'n_jobs': 2.0, 'permute': 0.7, 'relabel': 0.4,
-                           'addcols': 0.4, 'repeat': 0.4},
+                           'addcols': 0.4, 'repeat': 0.4, 'copy_right': 0.9},
                  faults={'worker_crash': 0.5, 'tok_raise': 0.4,
                          'sim_raise': 0.1}, p_fault=0.25, tight=0.15)
     elif prop == 'C11':
@@ -704,6 +704,13 @@ def gen_variants(g, op, lmeta, rmeta):
         reps = int(w) + (1 if rng.random() < (w - int(w)) else 0)
         for _ in range(reps):
             v = {'what': what}
+            if what == 'copy_right':
+                # the same DataFrame used as left and right table vs an equal
+                # copy of it as the right table
+                if lmeta is not None and rmeta is not None and \
+                        lmeta['name'] == rmeta['name']:
+                    out.append(v)
+                continue
             if what == 'drop_missing':
                 out.append(v)
                 continue
@@ -838,6 +845,28 @@ def out_attrs(g, meta, attr):
     return sel
 
 
+def maybe_same_out(g, op, l, r):
+    """One list object passed for both l_out_attrs and r_out_attrs (a caller
+    who wants the same attributes from both tables)."""
+    rng = g.rng
+    if rng.random() >= 0.2:
+        return
+    common_cols = [c for c in l['cols'] if c in r['cols']]
+    if not common_cols:
+        return
+    sel = rng.sample(common_cols, rng.randint(1, min(3, len(common_cols))))
+    for kname, other in ((l['key'], r), (r['key'], l)):
+        # a key of one table that is an ordinary column of the other
+        if kname in other['cols'] and kname != other['key'] and \
+                kname not in sel and rng.random() < 0.7:
+            sel.insert(rng.randint(0, len(sel)), kname)
+    if rng.random() < 0.3:
+        sel.append(rng.choice(sel))
+    op['l_out'] = list(sel)
+    op['r_out'] = list(sel)
+    op['same_out_object'] = True
+
+
 def prefixes(g):
     rng = g.rng
     x = rng.random()
@@ -911,10 +940,7 @@ def gen_join(g):
         op['l_out'] = lo
     if ro is not None or rng.random() < 0.5:
         op['r_out'] = ro
-    if lo and rng.random() < 0.2 and all(a in r['cols'] for a in lo):
-        # one list object passed for both l_out_attrs and r_out_attrs
-        op['r_out'] = list(lo)
-        op['same_out_object'] = True
+    maybe_same_out(g, op, l, r)
     op.update(prefixes(g))
     op['score'] = rng.random() < 0.75
     common(g, op, l, r, op['l_attr'], op['r_attr'], r['n'])
@@ -1003,6 +1029,7 @@ def gen_filter_tables(g, kind=None):
         op['l_out'] = lo
     if ro is not None or rng.random() < 0.5:
         op['r_out'] = ro
+    maybe_same_out(g, op, l, r)
     op.update(prefixes(g))
     if fspec['kind'] == 'OverlapFilter':
         op['score'] = rng.random() < 0.6
